@@ -228,3 +228,8 @@ def run(ctx):
             ctx.extra["existsid_race_reports_informational"] = out.count("WARNING: DATA RACE")
             ctx.extra["existsid_race_involves_only_ExistsId"] = all(
                 "ExistsId" in blk for blk in re.findall(r"WARNING: DATA RACE[\s\S]*?={18}", out)) if "DATA RACE" in out else True
+
+
+def setup_gen():
+    """called by setup.sh: write coq/Gen/C26_SymTab.v before the full make"""
+    regenerate(vlib.Ctx("C26", "quick", 1))
